@@ -1094,6 +1094,43 @@ where
                     self.slots.swap(0, 1);
                 }
             }
+            4 | 7 if self.slots[1].is_some() => {
+                // dst.clone_from(&src) into an existing set
+                let (di, si) = if sub == 7 { (1, 0) } else { (0, 1) };
+                let (a0, a1) = self.slots.split_at_mut(1);
+                let (dst, src) = if di == 1 { (a1[0].as_mut().unwrap(), a0[0].as_ref().unwrap()) } else { (a0[0].as_mut().unwrap(), a1[0].as_ref().unwrap()) };
+                let cx = &mut *self.cx;
+                let (nd, ns) = (dst.model.len(), src.model.len());
+                cx.bump(S::clones);
+                cx.bump(S::clone_froms);
+                if nd > ns {
+                    cx.bump(S::clone_from_shrinks);
+                }
+                if ns >= 2 {
+                    cx.bump(S::clones_ge2);
+                }
+                let dm = &mut dst.c.m;
+                let r = Self::lib(cx, || dm.clone_from(&src.c.m));
+                cx.log(|| format!("slot{di}.clone_from(slot{si}) ({nd} <- {ns} elements) -> {}", if r.is_ok() { "ok" } else { "panic" }));
+                match r {
+                    Ok(()) => {
+                        let obs = Self::observe(&dst.c).unwrap_or_default();
+                        dst.model.clear();
+                        for raw in src.model.keys() {
+                            let id = obs.iter().find(|o| o.raw == *raw).map(|o| o.kid).unwrap_or(NOID);
+                            dst.model.insert(*raw, id);
+                        }
+                        if !liar {
+                            let eq = Self::lib(cx, || dst.c.m == src.c.m);
+                            cx.chk(P15, eq == Ok(true), "clone-equal", || format!("after dst.clone_from(&src), dst == src gives {eq:?}"));
+                        }
+                        dst.swapped = false;
+                        self.cloned = true;
+                        self.mutated_after_clone = false;
+                    }
+                    Err(p) => fault |= unexpected(cx, liar, P15, &p),
+                }
+            }
             _ => {
                 fault |= self.drop_slot1();
                 let src = self.slots[0].as_ref().unwrap();
@@ -1110,6 +1147,8 @@ where
                     cx.bump(S::clones_empty);
                 }
                 let counts0 = if KD::TRACKED { tl::ledger_clone_counts() } else { vec![] };
+                let calls0 = KD::clone_calls();
+                let gens0: Vec<(u8, u32)> = if KD::COUNTS_CLONES { tl::quiet(|| src.c.m.iter().map(|k| (KD::kraw(k), KD::kgen(k))).collect()).unwrap_or_default() } else { vec![] };
                 let r = Self::lib(cx, || src.c.m.clone());
                 cx.log(|| format!("clone primary ({n} elements) -> {}", if r.is_ok() { "ok" } else { "panic" }));
                 match r {
@@ -1117,6 +1156,15 @@ where
                         let mut slot: Slot<KD, N> = Slot::new();
                         *slot.c = Caged::new(ns);
                         let obs = Self::observe(&slot.c).unwrap_or_default();
+                        if KD::COUNTS_CLONES && !liar {
+                            let d = KD::clone_calls() - calls0;
+                            cx.chk(P15, d == n as u64, "clone-count", || format!("clone() of {n} elements made {d} Clone::clone calls"));
+                            let gens1: Vec<(u8, u32)> = tl::quiet(|| slot.c.m.iter().map(|k| (KD::kraw(k), KD::kgen(k))).collect()).unwrap_or_default();
+                            for (raw, g) in &gens0 {
+                                let got = gens1.iter().find(|x| x.0 == *raw).map(|x| x.1);
+                                cx.chk(P15, got == Some(g + 1), "clone-origin", || format!("element {raw} of the clone is not a Clone::clone of the original element (generation {got:?}, original {g})"));
+                            }
+                        }
                         if KD::TRACKED && !liar {
                             let counts1 = tl::ledger_clone_counts();
                             let stored: Vec<u32> = src.model.values().copied().collect();
@@ -1512,6 +1560,16 @@ impl Copy2 for mmv_base::tl::TK {
     const IS_COPY: bool = false;
     fn extend_by_ref<'a, const N: usize, I: Iterator<Item = &'a Self>>(_: &mut Set<Self, N>, _: I) {}
 }
+impl Copy2 for mmv_base::kinds::Unit {
+    const IS_COPY: bool = true;
+    fn extend_by_ref<'a, const N: usize, I: Iterator<Item = &'a Self>>(s: &mut Set<Self, N>, it: I) {
+        s.extend(it)
+    }
+}
+impl Copy2 for mmv_base::kinds::NK {
+    const IS_COPY: bool = false;
+    fn extend_by_ref<'a, const N: usize, I: Iterator<Item = &'a Self>>(_: &mut Set<Self, N>, _: I) {}
+}
 impl Copy2 for String {
     const IS_COPY: bool = false;
     fn extend_by_ref<'a, const N: usize, I: Iterator<Item = &'a Self>>(_: &mut Set<Self, N>, _: I) {}
@@ -1566,17 +1624,21 @@ where
 }
 
 pub fn run_dyn(case: &Case, cx: &mut Ctx) {
-    use mmv_base::kinds::{Plain, Str, Tracked};
-    // sets are instantiated for tracked / plain / string payloads
-    let kind = match case.kind % 6 {
+    use mmv_base::kinds::{NoDrop, Plain, Str, Tracked, ZstKey};
+    // sets are instantiated for tracked / plain / string / zero-sized / no-drop-glue elements
+    let kind = match case.kind % mmv_base::case::NKINDS {
         0 => 0,
         2 => 2,
+        4 | 7 => 4,
+        6 => 6,
         _ => 1,
     };
     let n = mmv_base::capacity_of(&Case { kind, ..case.clone() });
     match kind {
         0 => mmv_base::by_cap!(run, Tracked, n, case, cx, [0, 1, 2, 3, 4, 6, 9, 17]),
         1 => mmv_base::by_cap!(run, Plain, n, case, cx, [0, 1, 2, 3, 4, 6, 9, 17]),
-        _ => mmv_base::by_cap!(run, Str, n, case, cx, [0, 1, 2, 3, 4, 6]),
+        2 => mmv_base::by_cap!(run, Str, n, case, cx, [0, 1, 2, 3, 4, 6]),
+        4 => mmv_base::by_cap!(run, ZstKey, n, case, cx, [0, 1]),
+        _ => mmv_base::by_cap!(run, NoDrop, n, case, cx, [0, 1, 2, 3, 4, 6]),
     }
 }
